@@ -2,11 +2,15 @@
 pub mod sparql_ast;
 pub mod sparql_eval;
 pub mod expiry_fixpoint;
+pub mod window;
+pub mod termdb;
 
 /// Self-tests of the reference models against hand-computed micro cases.
 pub fn selftest() -> Vec<String> {
     let mut errs = Vec::new();
     errs.extend(sparql_eval::selftest());
     errs.extend(expiry_fixpoint::selftest());
+    errs.extend(window::selftest());
+    errs.extend(termdb::selftest());
     errs
 }
